@@ -98,7 +98,7 @@ func runRO(a []string) string {
 		return "badargs"
 	}
 	if a[0] == "dhcp4" && len(a) >= 16 {
-		want := lib.Hex(lib.UnHex(a[15]))
+		want := lib.Hex(unhex(a[15]))
 		obs := ""
 		for try := 0; try < 2000; try++ {
 			var w []byte
@@ -202,4 +202,51 @@ func (g *gen) aliasCases() {
 		}
 	}
 	_ = fmt.Sprint
+}
+
+// unhex: a byte-string token: hex, "-", or the compact form R<seed>x<len> = ramp(seed, len)
+func unhex(s string) []byte {
+	if len(s) > 1 && s[0] == 'R' {
+		var sd uint64
+		var n int
+		if _, err := fmt.Sscanf(s[1:], "%dx%d", &sd, &n); err == nil && n >= 0 && n <= 1<<20 {
+			return ramp(sd, n)
+		}
+	}
+	return lib.UnHex(s)
+}
+
+// ---------------------------------------------------------------- LENGTHS AT THE WIDTH OF THE LENGTH FIELD
+// Set/AppendPayload and the composed frames with payloads around 2^16 (and around the capacity), into buffers
+// of capacity 100 and 70000: the 16-bit length fields wrap there, the capacity check must not.
+func (g *gen) wideCases() {
+	r := g.r
+	rt := func(n int) string { return "R" + g.seed() + "x" + itoa(n) }
+	ip4s, ip4d := lib.Hex(g.ip4()), lib.Hex(g.ip4())
+	ip6s, ip6d := lib.Hex(g.ip6()), lib.Hex(g.ip6())
+	for _, c := range []int{100, 70000, 70100} {
+		for _, mode := range []string{modeS, modeA} {
+			for _, n := range []int{65526, 65527, 65528, 65529, 65535, 65536, 65537, 69992, 69993, 70000, 131072 + 3} {
+				r.Do("udppl", itoa(c), itoa(g.lenFor(c)), g.seed(), itoa(g.port()), itoa(g.port()), mode, rt(n))
+			}
+			for _, n := range []int{65514, 65515, 65516, 65517, 65535, 65536, 69980, 69981, 70000, 131072 + 3} {
+				r.Do("ip4pl", itoa(c), itoa(c), g.seed(), "64", ip4s, ip4d, "17", mode, rt(n))
+			}
+			for _, n := range []int{65495, 65496, 65534, 65535, 65536, 65537, 69960, 69961, 70000, 70060, 70061, 131072 + 3} {
+				r.Do("ip6pl", itoa(c), itoa(g.lenFor(c)), g.seed(), "64", ip6s, ip6d, "17", mode, rt(n))
+			}
+		}
+		for _, n := range []int{65506, 65507, 65508, 65527, 65528, 65535, 65536, 69958, 69959} {
+			r.Do("frame4", itoa(c), itoa(g.lenFor(c)), g.seed(), lib.Hex(g.mac()), lib.Hex(g.mac()), "64", ip4s, ip4d, itoa(g.port()), itoa(g.port()), rt(n))
+		}
+		for _, n := range []int{65526, 65527, 65528, 65535, 65536, 69938, 69939} {
+			r.Do("frame6", itoa(c), itoa(g.lenFor(c)), g.seed(), lib.Hex(g.mac()), lib.Hex(g.mac()), "64", ip6s, ip6d, itoa(g.port()), itoa(g.port()), rt(n))
+		}
+		for _, n := range []int{65535, 65536, 69986, 69987} {
+			r.Do("ethpl", itoa(c), itoa(g.lenFor(c)), g.seed(), "2048", lib.Hex(g.mac()), lib.Hex(g.mac()), modeA, rt(n), "0")
+		}
+	}
+	for _, n := range []int{495, 496, 497, 512, 65535, 65536} {
+		r.Do("dnsq", itoa(g.rng.Intn(65536)), "256", rt(n), "1")
+	}
 }
